@@ -37,8 +37,8 @@ import itertools
 from extract_util import RT, RIGHTS, CLOSERS, TAG_SWEEP_ABBRS, TAG_SWEEP_ABBRS_CSS, auto_closed_tail, gen_clean_tag
 
 # ------------------------------------------------------------------ switches (see the module text)
-UNQ_NOT_PROPERLY_NESTED = False       # genuine defect of the unchanged library: '<div a=(x>p' -> 'x>p', '<div a={[}]>p' -> None
-UNQ_SLASH_BEFORE_NAME_END = False     # genuine defect of the unchanged library: '<a href=/about>p' -> '/about>p'
+UNQ_NOT_PROPERLY_NESTED = True        # listed finding roundtrip:unquoted-value-brackets-not-properly-nested; genuine defect of the unchanged library: '<div a=(x>p' -> 'x>p', '<div a={[}]>p' -> None
+UNQ_SLASH_BEFORE_NAME_END = True      # listed finding roundtrip:unquoted-value-slash-before-name-characters; genuine defect of the unchanged library: '<a href=/about>p' -> '/about>p'
 
 # ------------------------------------------------------------------ the value alphabet (HTML 13.1.2.3)
 UNQ_FORBIDDEN = ' \t\n\f\r"\'=<>`'
